@@ -65,15 +65,17 @@ ISO_SCALAR = ["Diffusion", "HyperDiffusion", "KuramotoSivashinsky", "AllenCahn",
 ISO_VECTOR = ["Burgers", "KortewegDeVries", "GeneralConvectionStepper"]
 
 
-def t_permutation(cls, D, N, order, perm, seed):
-    """permuting the spatial axes (and the velocity channels with them) permutes the result"""
+def t_permutation(cls, D, N, order, perm, seed, opts=None):
+    """permuting the spatial axes (and the velocity channels with them) permutes the result; opts: non-default constructor flags
+    (conservative / single_channel forms of the convective steppers)"""
     ex, jnp = _ex()
+    opts = dict(opts or {})
     kw = dict(order=order) if registry.has_order(cls) else {}
-    s = registry.make(cls, D, N, dt=0.02, **kw)
+    s = registry.make(cls, D, N, dt=0.02, **kw, **opts)
     rng = np.random.default_rng(seed)
     u = 0.4 * rng.standard_normal((s.num_channels,) + (N,) * D)
     u = nyqfree(u, D, N)          # odd-order symbols need Nyquist-free states on even grids; harmless otherwise
-    vec = cls in ISO_VECTOR or cls in ("NavierStokesVelocity", "KolmogorovFlowVelocity")
+    vec = (cls in ISO_VECTOR or cls in ("NavierStokesVelocity", "KolmogorovFlowVelocity", "KuramotoSivashinskyConservative")) and s.num_channels == D
     sign = -1.0 if (cls in ("NavierStokesVorticity", "GeneralVorticityConvectionStepper") and _parity(perm) == 1) else 1.0
 
     def P(v):
@@ -83,7 +85,7 @@ def t_permutation(cls, D, N, order, perm, seed):
         return sign * v
     a, b = np.asarray(s(jnp.asarray(P(u)))), P(np.asarray(s(jnp.asarray(u))))
     err = np.max(np.abs(a - b)) / (1 + np.max(np.abs(b)))
-    return err < 1e-11, f"{cls} D={D} N={N} order={order} perm={perm}: |step(P u) - P step(u)| = {err:.3e}"
+    return err < 1e-11, f"{cls}{opts or ''} D={D} N={N} order={order} perm={perm}: |step(P u) - P step(u)| = {err:.3e}"
 
 
 def _parity(perm):
@@ -128,7 +130,7 @@ def witness(ctx):
         for D in registry.dims(cls):
             if not deep and D == 3 and cls not in ("NavierStokesVelocity", "KolmogorovFlowVelocity", "Burgers"):
                 continue
-            N = {1: 9, 2: 7, 3: 5}[D] if (hash(cls) + ctx.seed) % 2 else {1: 10, 2: 8, 3: 6}[D]
+            N = {1: 9, 2: 7, 3: 7}[D] if (hash(cls) + ctx.seed) % 2 else {1: 10, 2: 8, 3: 6}[D]
             orders = ((2,) if not deep else (1, 2, 3, 4)) if registry.has_order(cls) and cls != "DifficultyLinearStepperSimple" else (0,)
             for order in orders:
                 for _ in range(1 if not deep else 3):
@@ -140,14 +142,24 @@ def witness(ctx):
     for sh in (itertools.product(range(6), repeat=2) if deep else [(1, 0), (0, 5), (3, 2), (5, 5)]):
         ctx.check("translation", dict(cls="Burgers", D=2, N=6, order=2, shift=list(sh), seed=ctx.seed), nontrivial=any(sh))
     ctx.check("translation", dict(cls="KuramotoSivashinsky", D=2, N=32, order=2, shift=[5, 17], seed=ctx.seed))
-    perms2, perms3 = [(1, 0)], [(1, 2, 0), (1, 0, 2), (2, 1, 0)]
+    perms2, perms3 = [(1, 0)], [(1, 2, 0), (1, 0, 2), (2, 1, 0), (0, 2, 1), (2, 0, 1)]
     for cls in ISO_SCALAR + ISO_VECTOR:
-        for (D, N) in ([(2, 7), (2, 32)] if cls in ("Burgers", "KuramotoSivashinsky") else [(2, 7)]) + ([(3, 5)] if deep or cls in ("Burgers", "Diffusion") else []) + ([(2, 8), (2, 11)] if deep else []):
+        for (D, N) in ([(2, 7), (2, 32)] if cls in ("Burgers", "KuramotoSivashinsky") else [(2, 7)]) + ([(3, 7 if ctx.seed % 2 else 6)] if deep or cls in ("Burgers", "Diffusion") else []) + ([(2, 8), (2, 11)] if deep else []):
             for perm in (perms2 if D == 2 else perms3):
                 ctx.check("permutation", dict(cls=cls, D=D, N=N, order=2, perm=list(perm), seed=ctx.seed))
+    # non-default forms of the convective steppers (conservative multi-channel, single-channel), all axis permutations in 3D
+    all3 = [(0, 2, 1), (1, 0, 2), (1, 2, 0), (2, 0, 1), (2, 1, 0)]
+    variants = [("Burgers", dict(conservative=True)), ("Burgers", dict(single_channel=True)), ("Burgers", dict(single_channel=True, conservative=True)),
+                ("KortewegDeVries", dict(conservative=True)), ("KortewegDeVries", dict(single_channel=True)),
+                ("GeneralConvectionStepper", dict(conservative=True)), ("GeneralConvectionStepper", dict(single_channel=True)),
+                ("KuramotoSivashinskyConservative", {}), ("KuramotoSivashinskyConservative", dict(single_channel=True))]
+    for j, (cls, opts) in enumerate(variants):
+        ctx.check("permutation", dict(cls=cls, D=2, N=7 if (j + ctx.seed) % 2 else 8, order=2, perm=[1, 0], seed=ctx.seed, opts=opts))
+        for perm in (all3 if deep or "conservative" in opts or cls == "KuramotoSivashinskyConservative" else [all3[(j + ctx.seed) % 5]]):
+            ctx.check("permutation", dict(cls=cls, D=3, N=6 if (j + ctx.seed) % 2 else 7, order=2, perm=list(perm), seed=ctx.seed, opts=opts))
     ctx.check("permutation", dict(cls="NavierStokesVorticity", D=2, N=7, order=2, perm=[1, 0], seed=ctx.seed))
     for perm in perms3:
-        ctx.check("permutation", dict(cls="NavierStokesVelocity", D=3, N=5, order=2, perm=list(perm), seed=ctx.seed))
+        ctx.check("permutation", dict(cls="NavierStokesVelocity", D=3, N=6 + ctx.seed % 2, order=2, perm=list(perm), seed=ctx.seed))
     for name in ("Diffusion", "Dispersion", "Burgers_single_channel", "KuramotoSivashinsky", "FisherKPP", "GeneralLinear", "GeneralNonlinear"):
         for D in (2, 3):
             for axis in range(D):
